@@ -5,6 +5,7 @@ from . import layout
 def run(ctx):
     layout.rule_variable_layout(ctx)
     layout.rule_selector_above_encoding(ctx)
+    layout.rule_clause_templates(ctx)
     ctx.assume("integer arithmetic on usize without overflow for frameworks that fit in memory")
     ctx.assume("rustc's MIR; affine abstract interpretation of sa/affine.py (+, -, <<, exact >>, * by constants, inlined local calls)")
     return (
